@@ -86,6 +86,8 @@ type Obligation struct {
 }
 
 type Verifier struct {
+	orphanFor map[string]*LoopSpec // left-over loop clauses of the top function's contract, by the inlined loop they were given to
+	orphanTop *ssa.Function
 	calleeBindings []*Term // bindings of the closure whose contract is being applied
 	P       *Program
 	obls    map[string]*Obligation
@@ -144,7 +146,7 @@ func (v *Verifier) evalInv(env *SpecEnv, inv Clause, obName string) (g *Term) {
 }
 
 func (v *Verifier) addOb(name, kind, clause string, st *State, goal *Term, cover bool) {
-	if os.Getenv("GOVC_DEBUG") == "6" && kind == "post" {
+	if os.Getenv("GOVC_DEBUG") == "6" {
 		fmt.Fprintf(os.Stderr, "addOb %s goal=%s\n", name, truncate(goal.String(), 600))
 	}
 	ob, ok := v.obls[name]
@@ -276,10 +278,25 @@ func (v *Verifier) addOb(name, kind, clause string, st *State, goal *Term, cover
 					}
 				}
 			}
+			val := (*Term)(nil)
+			if x != nil {
+				val = Sub(L, IntLit(1))
+			} else {
+				// the same for a counted loop ( x - 1 < L  from the invariant, not x < L  from the exit): x is L
+				for _, h := range st.pc {
+					if h.Op == "not" && h.Args[0].Op == "<" {
+						y, l := h.Args[0].Args[0], h.Args[0].Args[1]
+						if y.Op == "var" && !mentions(l, y) && (have[Lt(Sub(y, IntLit(1)), l)] || have[Le(y, l)] || have[Lt(y, Add(l, IntLit(1)))]) {
+							x, L, val = y, l, l
+							break
+						}
+					}
+				}
+			}
 			if x == nil {
 				break
 			}
-			m := map[*Term]*Term{x: Sub(L, IntLit(1))}
+			m := map[*Term]*Term{x: val}
 			st = st.clone()
 			for i, t := range st.pc {
 				st.pc[i] = Subst(t, m)
@@ -679,6 +696,15 @@ func (v *Verifier) jump(st *State, b *ssa.BasicBlock) bool {
 			specFr = st.frames[0]
 		}
 	}
+	if spec == nil && !st.initMod && v.topC != nil && v.top != nil && len(st.frames) > 1 && fr.fn.Pkg == v.top.Pkg && v.P.Contracts[funcKey(fr.fn)] == nil {
+		// A loop of a helper without contract of its own, inlined into the function under verification, while
+		// that function's contract has clauses for more loops than the function has now: the loop was moved into
+		// the helper. The left-over clauses (in order) are tried on it; they are checked like any others.
+		if sp := v.orphanLoopSpec(fr.fn, ord); sp != nil {
+			spec = sp
+			specFr = st.frames[0]
+		}
+	}
 	if spec == nil || st.initMod {
 		fr.visits[b.Index]++
 		if fr.visits[b.Index] > 400 {
@@ -758,6 +784,12 @@ func (v *Verifier) jump(st *State, b *ssa.BasicBlock) bool {
 				st.assume(g)
 			}
 		}
+		// a loop entered only through guarded edges (the shape range-over-int compiles to: the test sits before the
+		// head and at the end of the body): the guard, read on the head's own variables, holds whenever the head is
+		// reached - every edge into it was taken with the guard true on the values the phis then receive
+		if g := v.headGuard(st, b); g != nil {
+			st.assume(g)
+		}
 		{
 			hv := v.havocked
 			delete(hv, nil)
@@ -793,6 +825,105 @@ func (v *Verifier) jump(st *State, b *ssa.BasicBlock) bool {
 	// loop frame: heaps not named in modifies must be unchanged on old cells
 	v.frameCheck(st, ci.heap, st.allocd[ci.nAlloc:], ci.lwAt, spec.Modifies, specFr, "frame:"+name, false)
 	return false
+}
+
+func (v *Verifier) orphanLoopSpec(fn *ssa.Function, ord int) *LoopSpec {
+	key := fmt.Sprintf("%s/%d", funcKey(fn), ord)
+	if v.orphanFor == nil || v.orphanTop != v.top {
+		v.orphanFor, v.orphanTop = map[string]*LoopSpec{}, v.top
+	}
+	if sp, ok := v.orphanFor[key]; ok {
+		return sp
+	}
+	n := len(v.loopsOf(v.top).headers)
+	var ords []int
+	for o := range v.topC.Loops {
+		if o >= n {
+			ords = append(ords, o)
+		}
+	}
+	sort.Ints(ords)
+	var sp *LoopSpec
+	if k := len(v.orphanFor); k < len(ords) {
+		sp = v.topC.Loops[ords[k]]
+	}
+	v.orphanFor[key] = sp
+	return sp
+}
+
+// headGuard: if every edge into loop head b leaves an `if x OP y` whose true branch is b, and the comparisons agree
+// once the values flowing into b's phis are replaced by the phis themselves, that comparison (over the state's
+// current values of the phis) is returned.
+func (v *Verifier) headGuard(st *State, b *ssa.BasicBlock) *Term {
+	var agreed *Term
+	for pi, pred := range b.Preds {
+		if len(pred.Instrs) == 0 {
+			return nil
+		}
+		iff, ok := pred.Instrs[len(pred.Instrs)-1].(*ssa.If)
+		if !ok || len(pred.Succs) != 2 || pred.Succs[0] != b || pred.Succs[1] == b {
+			return nil
+		}
+		cmp, ok := iff.Cond.(*ssa.BinOp)
+		if !ok {
+			return nil
+		}
+		operand := func(x ssa.Value) *Term {
+			for _, in := range b.Instrs {
+				p, ok := in.(*ssa.Phi)
+				if !ok {
+					break
+				}
+				same := pi < len(p.Edges) && p.Edges[pi] == x
+				if !same && pi < len(p.Edges) {
+					// constants are not shared between uses: equal ones of the same type are the same value
+					if c1, ok := p.Edges[pi].(*ssa.Const); ok {
+						if c2, ok := x.(*ssa.Const); ok && c1.Value != nil && c2.Value != nil && c1.Value.String() == c2.Value.String() && types.Identical(c1.Type(), c2.Type()) {
+							same = true
+						}
+					}
+				}
+				if same {
+					if t, ok := st.env[p]; ok {
+						return t
+					}
+				}
+			}
+			if _, isConst := x.(*ssa.Const); isConst {
+				return v.val(st, x)
+			}
+			if t, ok := st.env[x]; ok {
+				// a value computed before the loop (it must not change inside it: only values defined outside)
+				if in, ok := x.(ssa.Instruction); ok && v.loopsOf(b.Parent()).members[b.Index][in.Block().Index] {
+					return nil
+				}
+				return t
+			}
+			return nil
+		}
+		x, y := operand(cmp.X), operand(cmp.Y)
+		if x == nil || y == nil || x.Sort != SInt || y.Sort != SInt {
+			return nil
+		}
+		var t *Term
+		switch cmp.Op {
+		case token.LSS:
+			t = Lt(x, y)
+		case token.LEQ:
+			t = Le(x, y)
+		case token.GTR:
+			t = Lt(y, x)
+		case token.GEQ:
+			t = Le(y, x)
+		default:
+			return nil
+		}
+		if agreed != nil && agreed != t {
+			return nil
+		}
+		agreed = t
+	}
+	return agreed
 }
 
 // havocNamed havocs a heap (by Go type name) or a single local cell (by variable name).
